@@ -146,8 +146,8 @@ CHECKS = {
     technique='contract-based deductive verification: nested loop invariants over the generation step, call-back argument obligations, z3; delegation-binding analysis'),
  'C13': dict(
     category='other',
-    text='Bounded stand-in only (labelled bounded): fast_nonMarkov_SIS against a plain reference semantics (recover exactly `duration` after each infection, attempt each neighbour at '
-         'every listed delay, infect iff susceptible then) on 150 random graphs <= 6 nodes with table-driven, tie-free durations and delay lists (sorted and unsorted); node histories must coincide.',
+    text='Unbounded only for the adapter _find_trans_and_rec_delays_SIS_ (user rules asked with the right arguments in the right order, dict = neighbours -> answers). Deciding part, bounded (labelled): fast_nonMarkov_SIS against a plain reference semantics (recover exactly `duration` after each infection, attempt each neighbour at '
+         'every listed delay, infect iff susceptible then) on 400 random graphs <= 6 nodes with table-driven, tie-free durations and delay lists (sorted and unsorted, both calling styles, silent and short-lived nodes, tmax placed exactly on an event time); node histories must coincide.',
     design_ref='DESIGN.md section 5 "C13"',
     note='Equality in law with fast_SIS under exponential rules is not decided. No unbounded contract for _process_trans_SIS_nonMarkov_.',
     technique='bounded check of the real simulator against an independent reference semantics (stand-in for contracts out of reach)'),
